@@ -3,4 +3,6 @@ coq/Raft, correspondence of that model with the implementation, runtime monitor 
 from props import raftcommon as R
 
 PROPS = ('C18',)
-correspondence, search, replay = R.standard_module('C18', PROPS)
+# in schedules with read-only nodes a safety record (majority, one leader, common sequence, fallback) is also a C18 record:
+# the read-only nodes influenced the cluster
+correspondence, search, replay = R.standard_module('C18', PROPS, {'ro_trace': ('C01', 'C03', 'C04', 'C20')})
